@@ -478,7 +478,7 @@ func checkC07(c *Check) {
 					if _, f := ra.F.Reach(Query{From: ra.Entry(), Inclusive: true, Target: func(q Pt) bool { return q == pt }, AvoidEdge: w}); !f {
 						continue
 					}
-					if v, ok := objOf(info, ret.Results[1]).(*types.Var); ok && !v.IsField() && posIn(ra.FI.Decl.Body, v.Pos()) {
+					if v, ok := objOf(info, ret.Results[1]).(*types.Var); ok && !v.IsField() && localIn(ra.FI.Decl.Body, v) {
 						defs, okD := ra.ReachingDefs(v, Pt{blk, len(blk.Nodes) - 1}, w)
 						if !okD {
 							other = true
@@ -637,58 +637,96 @@ func checkC07(c *Check) {
 			})
 			if len(branches) > 0 {
 				msg = ""
-				nonSticky := map[types.Object]string{}
-				assigned := map[types.Object]bool{}
+				// cells: a local variable, or a field path of a local struct (`st.tempFail`)
+				cellOf := func(e ast.Expr) (string, bool) {
+					e = ast.Unparen(e)
+					path := ""
+					for {
+						if se, ok := e.(*ast.SelectorExpr); ok && fieldOf(ei, se) != nil {
+							path = "." + se.Sel.Name + path
+							e = ast.Unparen(se.X)
+							continue
+						}
+						break
+					}
+					id, ok := e.(*ast.Ident)
+					if !ok {
+						return "", false
+					}
+					v, isVar := objOf(ei, id).(*types.Var)
+					if !isVar || v.IsField() {
+						return "", false
+					}
+					return itoa(int(v.Pos())) + ":" + v.Name() + path, true
+				}
+				nonSticky := map[string]string{}
+				assigned := map[string]bool{}
 				for _, br := range branches {
 					ast.Inspect(br, func(n ast.Node) bool {
 						as, ok := n.(*ast.AssignStmt)
 						if !ok {
 							if inc, isInc := n.(*ast.IncDecStmt); isInc {
-								if o := objOf(ei, inc.X); o != nil {
-									assigned[o] = true
-									nonSticky[o] = exprStr(inc.X) + " is counted"
+								if k, ok := cellOf(inc.X); ok {
+									assigned[k] = true
+									nonSticky[k] = exprStr(inc.X) + " is counted"
 								}
 							}
 							return true
 						}
 						for i, l := range as.Lhs {
-							o := objOf(ei, rootExpr(l))
-							v, isVar := o.(*types.Var)
-							if !isVar || v.IsField() || as.Tok == token.DEFINE {
+							k, ok := cellOf(l)
+							if !ok || as.Tok == token.DEFINE {
 								continue
 							}
-							assigned[o] = true
+							assigned[k] = true
 							sticky := false
 							if len(as.Rhs) == len(as.Lhs) && as.Tok == token.ASSIGN {
-								if _, isID := ast.Unparen(l).(*ast.Ident); isID {
-									if tv, ok := ei.Types[as.Rhs[i]]; ok && tv.Value != nil && tv.Value.Kind() == constant.Bool && constant.BoolVal(tv.Value) {
-										sticky = true
-									}
+								if tv, ok := ei.Types[as.Rhs[i]]; ok && tv.Value != nil && tv.Value.Kind() == constant.Bool && constant.BoolVal(tv.Value) {
+									sticky = true
 								}
 							}
 							if !sticky {
-								nonSticky[o] = exprStr(l) + " is overwritten per signature"
+								nonSticky[k] = exprStr(l) + " is overwritten per signature"
 							}
 						}
 						return true
 					})
 				}
 				// decisions after the loop
+				inLoop := map[ast.Node]bool{}
+				ast.Inspect(loop, func(n ast.Node) bool {
+					if n != nil {
+						inLoop[n] = true
+					}
+					return true
+				})
 				for _, b := range ea.F.G.Blocks {
 					cond := ea.F.condRaw(b)
-					if cond == nil || !b.Live || cond.Pos() < loop.End() {
+					if cond == nil || !b.Live || inLoop[cond] {
 						continue
 					}
-					ast.Inspect(cond, func(n ast.Node) bool {
-						if id, ok := n.(*ast.Ident); ok {
-							if o := ei.Uses[id]; o != nil {
-								if why, bad := nonSticky[o]; bad {
-									msg = "a decision after the loop (" + exprStr(cond) + ") reads " + id.Name + ", which " + why + " in the DKIM branch: with several signatures the verdict depends on their order (a temp-failed aligned signature is forgotten when another one follows)"
+					// before the loop?
+					if _, after := ea.F.Reach(Query{From: ea.F.LoopDone(&ElemLoop{Stmt: loop}), Inclusive: true, Target: func(q Pt) bool { return q.B == b }, NoCorr: true}); !after {
+						continue
+					}
+					var visit func(n ast.Node) bool
+					visit = func(n ast.Node) bool {
+						e, isExpr := n.(ast.Expr)
+						if !isExpr {
+							return true
+						}
+						if k, ok := cellOf(e); ok {
+							// the cell itself, or a cell below / above it
+							for nk, why := range nonSticky {
+								if nk == k || strings.HasPrefix(nk, k+".") || strings.HasPrefix(k, nk+".") {
+									msg = "a decision after the loop (" + exprStr(cond) + ") reads " + exprStr(e) + ", which " + why + " in the DKIM branch: with several signatures the verdict depends on their order (a temp-failed aligned signature is forgotten when another one follows)"
 								}
 							}
+							return false
 						}
 						return true
-					})
+					}
+					ast.Inspect(cond, visit)
 				}
 				if len(assigned) == 0 {
 					msg = "undecided: the DKIM branch assigns nothing"
@@ -715,7 +753,7 @@ func checkC07(c *Check) {
 				continue
 			}
 			txts := objOf(fi, as.Lhs[0])
-			usesTxts := func(q Pt) bool { return q != pt && q.Node() != nil && mentions(fi, q.Node(), txts) }
+			usesTxts := func(q Pt) bool { return q != pt && q.Node() != nil && readsObj(fi, q.Node(), txts) }
 			world := func(isDNSErr, notFound bool) func(b *cfgBlock, i int) bool {
 				return fr.F.World(func(atom ast.Expr) (bool, bool) {
 					if id, isID := ast.Unparen(atom).(*ast.Ident); isID {
